@@ -8,7 +8,7 @@ import json
 import math
 from typing import Dict, List, Optional, Set, Tuple
 
-from ..core import AnalysisError, FuncInfo, Repo, attr_chain, call_name, const_value, is_const, unparse, walk_no_nested
+from ..core import AnalysisError, FuncInfo, Repo, attr_chain, call_name, const_value, deviates, is_const, unparse, walk_no_nested
 from ..purity import Purity
 from ..report import Ctx
 from ..skelrules import check_skeleton
@@ -249,7 +249,7 @@ def rule_w3(ctx: Ctx) -> None:
         appended = [a for _n, a, _w in names if fstring_suffix(a) is not None and isinstance(a, (ast.JoinedStr, ast.BinOp))]
         if len(ws) == 1 and len(appended) == len(names):
             ctx.violation("C20-W3", rb, ws[0], f"read_bisc_file opens `{unparse(ws[0])}`, which replaces whatever follows the last dot of the given name, while write_bisc_files appends "
-                          f"{fstring_suffix(appended[0])!r} to it: for a name containing a dot the reader looks for a file the writer never wrote")
+                          f"{fstring_suffix(appended[0])!r} to it: for a name containing a dot the reader looks for a file the writer never wrote", robust=True)
             return
     if len(opens) != 1:
         raise AnalysisError(f"{rb.where}: open() not found")
@@ -268,6 +268,10 @@ def rule_w3(ctx: Ctx) -> None:
             continue
         inner = [n for n in ast.walk(st) if id(n) in pending]
         if inner:
+            if isinstance(st, ast.If) and any(isinstance(x, ast.Call) and call_name(x) and call_name(x)[-1] in ("isfile", "exists", "is_file") for x in ast.walk(st.test)):
+                ctx.violation("C20-W5", wb, st, f"the data files are written only when `{unparse(st.test)[:70]}`: when files of that name are already there the data of this request is dropped "
+                              "and a later read returns what an earlier request wrote", robust=True)
+                return
             raise AnalysisError(f"{wb.where}: a data file is written conditionally (inside `{unparse(st).splitlines()[0][:60]}`); not decided")
         leaves = [x for x in walk_no_nested(st) if isinstance(x, (ast.Return, ast.Raise))] if not isinstance(st, (ast.FunctionDef,)) else []
         if leaves:
@@ -415,16 +419,34 @@ def rule_d1(ctx: Ctx, sites: List[OpenSite]) -> None:
     else:
         ctx.ok("C20-D1", store.where, f"entry = repr({in_dfa})", w[0], store)
     # default
-    dflt = [st for st in store.body if isinstance(st, ast.If) and unparse(st.test) == f"{in_dfa} is None"]
-    if len(dflt) == 1 and len(dflt[0].body) == 1 and unparse(dflt[0].body[0]) in (f"{in_dfa} = cls.make_dfa_for_perm({perm})", f"{in_dfa} = PinWords.make_dfa_for_perm({perm})"):
+    ifs = [st for st in walk_no_nested(store.node) if isinstance(st, ast.If)]
+    dflt = [st for st in ifs if unparse(st.test) == f"{in_dfa} is None"]
+    fresh = (f"{in_dfa} = cls.make_dfa_for_perm({perm})", f"{in_dfa} = PinWords.make_dfa_for_perm({perm})")
+    if len(dflt) == 1 and len(dflt[0].body) == 1 and not dflt[0].orelse and unparse(dflt[0].body[0]) in fresh:
         ctx.ok("C20-D1", store.where, "defaults to the fresh computation make_dfa_for_perm(perm)", dflt[0], store)
+    elif len(dflt) == 1 and len(dflt[0].body) == 1:
+        deviates(ctx, "C20-D1", store, dflt[0], unparse(dflt[0].body[0]), fresh, f"when no automaton is supplied the entry is not make_dfa_for_perm({perm})", k=5)
+    elif not dflt and not any(in_dfa in unparse(st.test) for st in ifs) and f"{in_dfa} if " not in unparse(store.node) and f"{in_dfa} or " not in unparse(store.node):
+        ctx.violation("C20-D1", store, store.node, f"when no automaton is supplied (`{in_dfa}` is None) nothing is computed: the entry is not make_dfa_for_perm({perm})", robust=True)
     else:
-        ctx.violation("C20-D1", store, dflt[0] if dflt else store.node, f"when no automaton is supplied the entry is not make_dfa_for_perm({perm})")
-    # skip-or-truncate
-    skip = [st for st in store.body if isinstance(st, ast.If) and "is_file()" in unparse(st.test)]
-    for sk in skip:
-        if not (len(sk.body) == 1 and isinstance(sk.body[0], ast.Return) and sk.body[0].value is None and unparse(sk.test).endswith(".is_file()") and not unparse(sk.test).startswith("not")):
-            ctx.violation("C20-D1", store, sk, "existing-file branch does something other than leaving the stored automaton in place")
+        raise AnalysisError(f"{store.where}: how a missing `{in_dfa}` argument is defaulted is not recognised")
+    # skip-or-truncate: the canonical spelling of `if X.is_file(): return; REST` is `if not X.is_file(): REST` (sa/canon.py)
+    for sk in [st for st in ifs if "is_file()" in unparse(st.test)]:
+        t = unparse(sk.test)
+        inside = any(n is w[0] for b in sk.body for n in ast.walk(b))
+        if t.startswith("not ") and t.endswith(".is_file()") and " and " not in t and " or " not in t and not sk.orelse and inside:
+            continue
+        raise AnalysisError(f"{store.where}: what happens to an existing entry (`if {t[:50]}:`) is not recognised")
+    # the entry is complete before the file exists: opening for writing creates/truncates the file, and an existing file is never
+    # rewritten (guard above), so a computation that can fail or be interrupted must not run between the open and the write
+    wn = ssites[0].with_node
+    for call in [n for b in wn.body for n in ast.walk(b) if isinstance(n, ast.Call)]:
+        cands, _exact = ctx.repo.resolve_call(store, call)
+        exact_here = [c for c in cands if call_name(call) and call_name(call)[0] in ("cls", "self", "PinWords")]
+        if exact_here:
+            ctx.violation("C20-D1", store, call, f"`{unparse(call)[:60]}` runs after the database file was opened for writing: if it fails or is interrupted an empty entry is left behind, "
+                          "and because existing entries are never rewritten every later load of this permutation fails", robust=True)
+            return
     ctx.ok("C20-D1", store.where, "an existing entry is kept or rewritten through a truncating open (W1): the file stays a function of the permutation", store.node, store)
     # load: store on absence then read
     first_if = [st for st in load.body if isinstance(st, ast.If)]
@@ -635,6 +657,7 @@ def _variants():
         V("reader-swallows", replace_stmt(BI, "read_bisc_file", "print(f'File is invalid: {path}')", "pass"), "fire", "C20-W4"),
         V("store-str-not-repr", replace_expr(PW, "PinWords.store_dfa_for_perm", "repr(in_dfa)", "str(in_dfa.states)"), "fire", "C20-D1"),
         V("store-default-other-perm", replace_expr(PW, "PinWords.store_dfa_for_perm", "cls.make_dfa_for_perm(perm)", "cls.make_dfa_for_perm(perm.reverse())"), "fire", "C20-D1"),
+        V("store-computes-after-open", replace_expr(PW, "PinWords.store_dfa_for_perm", "repr(in_dfa)", "repr(in_dfa if in_dfa is not None else cls.make_dfa_for_perm(perm))"), "fire-or-undecided", "C20-D1"),
         V("load-stores-other", replace_expr(PW, "PinWords.load_dfa_for_perm", "cls.store_dfa_for_perm(perm)", "cls.store_dfa_for_perm(perm.inverse())"), "fire", "C20-D1"),
         V("db-builder-unsorted", replace_expr(PW, "PinWords.make_dfa_for_basis_from_db", "sorted(basis)", "basis"), "fire", "C20-D1"),
         V("db-builder-intersection", replace_expr(PW, "PinWords.make_dfa_for_basis_from_db", "out_dfa.union(out_dfa2)", "out_dfa.intersection(out_dfa2)"), "fire", "C20-D1"),
